@@ -76,11 +76,15 @@ CHECKS = {
 }
 
 
+# checks that have been accepted (quiet on the unchanged tree at several seeds, mutants run); others stay "not claimed"
+READY = ["C01", "C02", "C15"]
+
+
 def main():
     checks, na = [], []
     for pid in sorted(CHECKS):
         tech, text, note, ref = CHECKS[pid]
-        if (VERIF / "vf" / "checks" / f"{pid.lower()}.py").exists():
+        if pid in READY and (VERIF / "vf" / "checks" / f"{pid.lower()}.py").exists():
             checks.append(dict(
                 property_id=pid,
                 quick_cmd=f"{PY} -m vf.run {pid} --tier quick",
